@@ -13,6 +13,7 @@ import (
 	"math"
 	"math/rand/v2"
 	"os"
+	"runtime/debug"
 	"strconv"
 	"strings"
 	"sync/atomic"
@@ -102,7 +103,7 @@ func newC18Worker() *c18Worker {
 
 // draw runs one Sample call with r = k/2^24 and returns the failing clause ("" = ok).
 func (w *c18Worker) draw(ref *c18Ref, logits []float32, temp float32, topK int, topP, minP float32, k uint32) (clause string, id int32, err error) {
-	s := NewSampler(temp, topK, topP, minP, 0, nil)
+	s := NewSampler(temp, topK, topP, minP, -1, nil) // -1: no PCG is built; the rng is replaced right below
 	w.src.word = uint64(k) << 32
 	s.rng = w.rng
 	w.buf = append(w.buf[:0], logits...)
@@ -269,17 +270,19 @@ func c18Vector(sub *evid.Run, w *c18Worker, logits []float32, weird bool, st *c1
 	mk := func(mode string, temp float32, k int, p, m float32, dk uint32, seed int) c18Case {
 		return c18Case{Mode: mode, Logits: c18Fs(logits), Temp: c18F(temp), TopK: k, TopP: c18F(p), MinP: c18F(m), DrawK: dk, Seed: seed}
 	}
-	report := func(c c18Case, clause string) {
+	// report records a failing case. rerun repeats it through the enumeration's own call path.
+	report := func(mkCase func() c18Case, clause string, rerun func() string) {
 		if w.reported[clause] {
-			// this item already holds a fully confirmed witness with this signature: one more
-			// execution through the replay path must agree, then the case is only counted
-			if c2, _ := c18Exec(c, false); c2 != clause {
-				sub.Extra("machinery_errors", []string{fmt.Sprintf("C18 verdict not reproducible (%q then %q): %s", clause, c2, c)})
+			// this work item already holds a witness with this signature that was confirmed 5x through
+			// the replay path: one more execution must agree, then the case is only counted
+			if c2 := rerun(); c2 != clause {
+				sub.Extra("machinery_errors", []string{fmt.Sprintf("C18 verdict not reproducible (%q then %q): %s", clause, c2, mkCase())})
 				return
 			}
 			sub.Violation("C18/"+clause, "", nil)
 			return
 		}
+		c := mkCase()
 		// deterministic code under a controlled source: confirm 5x through the replay path
 		for i := 0; i < 5; i++ {
 			c2, _ := c18Exec(c, false)
@@ -319,7 +322,10 @@ func c18Vector(sub *evid.Run, w *c18Worker, logits []float32, weird bool, st *c1
 						st.calls++
 						cl, id, err := w.draw(ref, logits, temp, k, p, m, dk)
 						if cl != "" {
-							report(mk("draw", temp, k, p, m, dk, 0), cl)
+							report(func() c18Case { return mk("draw", temp, k, p, m, dk, 0) }, cl, func() string {
+								c2, _, _ := w.draw(ref, logits, temp, k, p, m, dk)
+								return c2
+							})
 							continue
 						}
 						// outcome class = (length, admissible mask, returned id | error)
@@ -342,7 +348,10 @@ func c18Vector(sub *evid.Run, w *c18Worker, logits []float32, weird bool, st *c1
 						st.calls += 2 * c18SeqLen
 						cl, _, _, _ := w.seeded(ref, logits, temp, k, p, m, seed)
 						if cl != "" {
-							report(mk("seed", temp, k, p, m, 0, seed), cl)
+							report(func() c18Case { return mk("seed", temp, k, p, m, 0, seed) }, cl, func() string {
+								c2, _, _, _ := w.seeded(ref, logits, temp, k, p, m, seed)
+								return c2
+							})
 						}
 					}
 				}
@@ -474,22 +483,33 @@ func ZZVerifC18() {
 		r.Finish()
 	}
 	thorough := evid.Thorough()
+	// the live heap is a few MB while every Sample call allocates: without this the collector
+	// would run every few milliseconds on all cores
+	debug.SetGCPercent(20000)
 
-	// bounds
-	maxBase, maxExt, maxWeird := 5, 0, 4
-	budget := 110 * time.Second // ~30 s of work on 16 idle cores; the margin is for a loaded machine
+	// bounds: alphabet per vector length (main run) and the +Inf/NaN sub-run
+	ext := append(append([]float32{}, c18Base...), c18Extra...)
+	weirdAlpha := append(append([]float32{}, c18Base...), c18Weird...)
+	alphaOf := map[int][]float32{1: ext, 2: ext, 3: ext, 4: c18Base, 5: c18Base}
+	maxWeird := 4
+	budget := 115 * time.Second // ~20 s of work on 16 idle cores; the margin is for a loaded machine
 	if thorough {
-		maxBase, maxExt, maxWeird = 6, 5, 5
+		alphaOf = map[int][]float32{1: ext, 2: ext, 3: ext, 4: ext, 5: ext, 6: c18Base}
+		maxWeird = 5
 		budget = 19 * time.Minute
 	}
 	if v, err := strconv.Atoi(os.Getenv("C18_MAXLEN")); err == nil { // debugging aid only
-		maxBase = v
+		for n := range alphaOf {
+			if n > v {
+				delete(alphaOf, n)
+			}
+		}
+		maxWeird = min(maxWeird, v)
+		r.NotExhaustive(fmt.Sprintf("C18_MAXLEN=%d debugging cap", v))
 	}
 	r.SetDeadline(budget)
-	ext := append(append([]float32{}, c18Base...), c18Extra...)
-	weirdAlpha := append(append([]float32{}, c18Base...), c18Weird...)
 
-	r.Rule("every logit vector of length 1..N over the boundary alphabet (ordered, with repetition: ties, -Inf, +-3e38, 88, 1 vs 1+2^-23) x temperature x top-k {-1,0,1,2,n,n+1} x top-p x min-p x {6 exact RNG draws r=k/2^24 through a replaced Sampler.rng, 3 seeds through the real NewSampler (two fresh samplers x 8 calls)}; every call goes through the real NewSampler(...).Sample(...). A separate sub-run covers every vector that contains +Inf or NaN with the weak oracle. One evaluation = one (vector, parameters, draw) call or one (vector, parameters, seed) pair of 8-call sequences. Non-trivial = the reference's admissible set is a non-empty proper subset of the vocabulary (filters / arg-max really exclude a token); distinct_nontrivial counts distinct logit vectors (main run only) having such a parameter combination, nontrivial_parameter_groups counts the (vector, parameters) combinations; +Inf/NaN vectors are counted in distinct_weird_vector.")
+	r.Rule("every logit vector of length 1..N over the boundary alphabet of its length (see bounds; ordered, with repetition: ties, -Inf, +-3e38, 88, 1 vs 1+2^-23, ...) x temperature x top-k {-1,0,1,2,n,n+1} x top-p x min-p x {6 exact RNG draws r=k/2^24 through a replaced Sampler.rng, 3 seeds through the real NewSampler (two fresh samplers x 8 calls)}; every call goes through the real NewSampler(...).Sample(...). A separate sub-run covers every vector that contains +Inf or NaN with the weak oracle. One evaluation = one (vector, parameters, draw) call or one (vector, parameters, seed) pair of 8-call sequences. Non-trivial = the reference's admissible set is a non-empty proper subset of the vocabulary (filters / arg-max really exclude a token); distinct_nontrivial counts distinct logit vectors (main run only) having such a parameter combination, nontrivial_parameter_groups counts the (vector, parameters) combinations; +Inf/NaN vectors are counted in distinct_weird_vector.")
 	r.Assume(
 		"admissible set, float64 reference: top-k = tokens whose logit >= the k-th largest (boundary ties all admissible; k<=0 or k>=n keeps all); probabilities = softmax(logit/max(temperature,1e-7)) over that set (1e-7 is the documented temperature floor; it only widens the sets); top-p = shortest descending-probability prefix whose mass exceeds p; min-p = prob >= min_p * max prob; filters compose in the sampler's order",
 		"tolerance: a token is reported as outside top-p / min-p only if it fails for every float32 rounding of logit/temperature and of the subtraction of the maximum (envelope 2^-22*(|z|+|zmax|) on the scaled logits) and then by a further relative margin of 1e-4; near-ties are therefore never judged",
@@ -518,11 +538,11 @@ func ZZVerifC18() {
 		rec(nil)
 	}
 	// ascending size: this is also the merge order, so the first recorded witness per signature is the smallest
-	for n := 1; n <= maxBase || n <= maxExt || n <= maxWeird; n++ {
-		if n <= maxExt {
-			add(false, n, ext) // superset of the base alphabet
-		} else if n <= maxBase {
-			add(false, n, c18Base)
+	alphaDesc := map[string]any{}
+	for n := 1; n <= c18MaxN; n++ {
+		if al, ok := alphaOf[n]; ok {
+			add(false, n, al)
+			alphaDesc[fmt.Sprintf("length_%d", n)] = c18Fs(al)
 		}
 		if n <= maxWeird {
 			add(true, n, weirdAlpha)
@@ -559,19 +579,16 @@ func ZZVerifC18() {
 		r.NotExhaustive(fmt.Sprintf("time budget %v reached; work items not completed per vector length: %s of %s; all other lengths were covered completely", budget, b, t))
 	}
 	r.Extra("bounds", map[string]any{
-		"base_alphabet":         c18Fs(c18Base),
-		"base_max_len":          maxBase,
-		"extended_alphabet":     c18Fs(ext),
-		"extended_max_len":      maxExt,
-		"weird_alphabet":        c18Fs(weirdAlpha),
-		"weird_max_len":         maxWeird,
-		"temperatures":          c18Fs(c18Temps),
-		"top_k":                 "{-1,0,1,2,n,n+1}",
-		"top_p":                 c18Fs(c18TopPs),
-		"min_p":                 c18Fs(c18MinPs),
-		"draws_k_over_2pow24":   c18Draws,
-		"seeds":                 c18Seeds,
-		"calls_per_seeded_case": 2 * c18SeqLen,
+		"main_alphabet_by_length": alphaDesc,
+		"weird_alphabet":          c18Fs(weirdAlpha),
+		"weird_max_len":           maxWeird,
+		"temperatures":            c18Fs(c18Temps),
+		"top_k":                   "{-1,0,1,2,n,n+1}",
+		"top_p":                   c18Fs(c18TopPs),
+		"min_p":                   c18Fs(c18MinPs),
+		"draws_k_over_2pow24":     c18Draws,
+		"seeds":                   c18Seeds,
+		"calls_per_seeded_case":   2 * c18SeqLen,
 	})
 	r.Finish()
 }
